@@ -75,4 +75,26 @@ def s_shr (b : RU n) (d : Nat) : RU n := if isNegative b then not_ (right_shift 
     `if (rl < 0) { Value.Low = -Value.Low; Value = -Value; }` -/
 def s_ext (a : RU n) : RU (n+1) := if isNegative a then neg (.node (neg a) (zero n)) else .node a (zero n)
 
+/-- rdiv.h `mod_n(rint<K>& a, const rint<K>& n)`: `a.isPositive() ? mod_n(a.Value, n.Value)` (`a %= n`) `:`
+    `nega = (-a).Value; mod_n(nega, n.Value); if (nega != 0u) sub(a.Value, n.Value, nega); else reset(a.Value);` -/
+def s_modn (t : Nat) (a m : RU n) : RU n :=
+  if !(isNegative a) then (div t a m).2
+  else
+    let nega := (div t (neg a) m).2
+    if !(isZero nega) then subNC m nega else zero n
+/-- rdiv.h `mod_n(rint<K>& a, const rint<K+1>& b, const rint<K>& c)` (the template with `R = K+1`):
+    `b.isPositive() ? mod_n(a.Value, b.Value, c.Value) :` `mod_n(a.Value, (-b).Value, c.Value); if (a.Value != 0u) sub(a.Value, c.Value, a.Value);` -/
+def s_modn2 (t : Nat) (b : RU (n+1)) (c : RU n) : RU n :=
+  if !(isNegative b) then mod_n2 t b c
+  else
+    let r := mod_n2 t (neg b) c
+    if !(isZero r) then subNC c r else r
+/-- rdiv.h `inv_mod(rint<K>& a, b, c)`: `b.isPositive() ? inv_mod(a.Value, b.Value, c.Value)` `:`
+    `mod_n(otherb, (-b).Value, c.Value); if (otherb != 0) sub(otherb, c.Value, otherb); inv_mod(a.Value, otherb, c.Value)` -/
+def s_invmod (t : Nat) (b c : RU n) : RU n :=
+  if !(isNegative b) then inv_mod t b c
+  else
+    let ob := (div t (neg b) c).2
+    inv_mod t (if !(isZero ob) then subNC c ob else ob) c
+
 end Givaro.Model.RecInt
